@@ -46,7 +46,7 @@ def run_c01(ck):
         if i % 150 == 0:
             ck.sample({"source": jobs[i]["files"]["main.asm"], "accepted": o["ok"], "bits": r.get("bits", "")[:64]}, limit=4)
     ck.extra["observed"] = stats
-    failed = tv.judge(ck, "TraceAsm", "TraceAsm.cfg", events, ck.wd, tag="asm", shard=150, timeout=1800)
+    failed = tv.judge(ck, "TraceAsm", "TraceAsm.cfg", events, ck.wd, tag="asm", shard=60, timeout=1800, jobs=6)
     ck.traces += len(events)
     for case in sorted(failed):
         for tag in sorted(set(failed[case])):
@@ -97,7 +97,7 @@ def run_c07(ck):
         if i % 80 == 0:
             ck.sample({"canonical": jobs[i * (k + 1)]["files"]["main.asm"], "rendering": jobs[i * (k + 1) + 1]["files"]["main.asm"],
                        "accepted": [not r.get("error") for r in rs]}, limit=3)
-    failed = tv.judge(ck, "TraceAsm", "TraceAsm.cfg", events, ck.wd, tag="asm7", shard=60, timeout=2400)
+    failed = tv.judge(ck, "TraceAsm", "TraceAsm.cfg", events, ck.wd, tag="asm7", shard=25, timeout=2400, jobs=6)
     ck.traces += len(events) * (k + 1)
     for case in sorted(failed):
         for tag in sorted(set(failed[case])):
@@ -204,7 +204,7 @@ def certificates(ck, seed, nprog, budgets, switches):
                        "claimed_sizes": claim["sizes"], "symbols": claim["syms"]}, limit=4)
     stats["distinct_final_states"] = len(events)
     ck.extra["certificates"] = stats
-    failed = tv.judge(ck, "TraceAsm", "TraceAsm.cfg", events, ck.wd, tag="cert", shard=150, timeout=2400)
+    failed = tv.judge(ck, "TraceAsm", "TraceAsm.cfg", events, ck.wd, tag="cert", shard=50, timeout=2400, jobs=6)
     ck.traces += len(events)
     for case in sorted(failed):
         for tag in sorted(set(failed[case])):
@@ -324,3 +324,62 @@ def run_c16(ck):
     return ck.finish(rule="random condition trees (depth <= 3, #elif chains, conditions over constants declared before / after / inside other arms, "
                           "undecidable conditions over labels) x random defines (absent, booleans, 0, 1, -1, 16, hierarchical names, undeclared names); "
                           "distinct = program index")
+
+
+def run_c17(ck):
+    quick = ck.tier == "quick"
+    rng = random.Random(ck.seed + 17)
+    n = 500 if quick else 8000
+    progs = [genasm.gen_macro_program(rng) for _ in range(n)]
+    # pinned inputs (known findings and regressions) are re-run on every run
+    import glob, json, os
+    for path in sorted(glob.glob(os.path.join(common.ROOT, "pinned", "C17", "*.json"))):
+        progs.append(json.load(open(path)))
+    jobs = [{"mode": "asm", "files": {"main.asm": genasm.render_macro_program(P)}, "roots": ["main.asm"],
+             "want": {"messages": False, "spans": False, "events": False}} for P in progs]
+    results = common.run_jobs(jobs, ck.wd + "/jobs", per_job_timeout=60)
+    ck.evaluations += len(jobs)
+    events = []
+    stats = {"accepted": 0, "rejected": 0}
+    for i, (P, r) in enumerate(zip(progs, results)):
+        if r.get("crash") or r.get("panic"):
+            ck.violation("panic:%s@%s" % (str(r.get("panic") or r.get("crash"))[:60], r.get("panic_at", "")),
+                         {"source": jobs[i]["files"]["main.asm"][:1200]}, {"job": jobs[i]})
+            continue
+        o = observe(r)
+        stats["accepted" if o["ok"] else "rejected"] += 1
+        events.append({"ev": "asm", "case": i, "prog": P, "obs": [o]})
+        if i % 120 == 0:
+            ck.sample({"source": jobs[i]["files"]["main.asm"], "accepted": o["ok"], "bits": r.get("bits", "")[:96]}, limit=4)
+    ck.extra["observed"] = stats
+    failed = tv.judge(ck, "TraceAsm", "TraceAsm.cfg", events, ck.wd, tag="macro", shard=40, timeout=900, jobs=8)
+    ck.traces += len(events)
+    def forward_label_in_macro_call(P):
+        # syntactic witness for the known finding F32 (no semantics: token names only)
+        macro_names = {r["pat"][0]["lc"] for r in P["rules"] if r["prod"].get("k") == "asm"}
+        later = set()
+        hit = False
+        for it in reversed(P["items"]):
+            if it["k"] == "label":
+                later.add(it["name"])
+            elif it["k"] == "instr" and it["toks"] and it["toks"][0]["lc"] in macro_names:
+                if any(t["k"] == "id" and t["s"] in later for t in it["toks"][1:]):
+                    hit = True
+        return hit
+
+    for case in sorted(failed):
+        for tag in sorted(set(failed[case])):
+            if tag == "rejected-but-accepted-by-rules" and forward_label_in_macro_call(progs[case]):
+                tag += ":macro-call-with-forward-label"
+            ck.violation("TraceAsm:C17:" + tag, {"verdict": tag, "source": jobs[case]["files"]["main.asm"],
+                                                 "observed_ok": not results[case].get("error"),
+                                                 "bits": results[case].get("bits", "")[:200]},
+                         {"job": jobs[case], "prog": progs[case], "spec": "TraceAsm"})
+    skipped = sum(v for kk, v in ck.extra.items() if kk.startswith("skipped:"))
+    ck.nontrivial = set(range(len(events) - skipped))
+    ck.assumptions += ["an asm block is specified as its lines assembled in place (textual substitution of arguments, positions advancing, "
+                       "block labels visible to its lines): by construction what writing the lines in place of the call produces",
+                       "macro productions are a bare `asm { }` block (no local variables around it); sizes must be syntactically static"]
+    return ck.finish(rule="random instruction sets extended with macro rules over 1-3 base instructions (typed and untyped parameters, placeholders in "
+                          "operand positions, block labels, macros using macros, self-recursive macros) and user functions (binary, nested calls, "
+                          "recursion, conditionals) used in productions and data; distinct = program index minus skipped")
